@@ -200,9 +200,12 @@ class Opaque:
     """value outside the modelled subset (result of an abstracted statement); any operation on it is opaque"""
     _n = itertools.count()
 
-    def __init__(self, why="", buf=None):
+    def __init__(self, why="", buf=None, idx=None):
         self.why = why
         self.id = next(Opaque._n)
+        # index function of a per-atom sequence relative to its source ordering (abstract): ('base', name) |
+        # ('repeat', idx, count-object-id) | ('take', idx, index-array-id) | ('arange', count-id); None = unknown
+        self.idx = idx
         # abstract buffer identity (ownership model): views share the buffer of their base, every other
         # abstracted result is a fresh buffer
         self.buf = buf if buf is not None else self.id
@@ -947,6 +950,11 @@ class PyExec:
                 v_ = num(val)
                 return SymArr((arr.shape[0],), (lambda idx, v_=v_, gi=gi: z3.substitute(v_, (gi, num(idx)))), "list comprehension")
             if isinstance(itv, Opaque):
+                if isinstance(n.elt, ast.Subscript) and isinstance(g.target, ast.Name) and isinstance(n.elt.slice, ast.Name) \
+                        and n.elt.slice.id == g.target.id:
+                    src = self.eval(st, n.elt.value, env)
+                    if isinstance(src, Opaque):
+                        return Opaque("[%s[i] for i in ids]" % src.why, idx=("take", src.idx, itv.id))
                 return Opaque("comprehension over an abstracted value")
             for item in self.iterate(st, itv):
                 e2 = dict(env)
@@ -955,7 +963,25 @@ class PyExec:
             return st.new(PList(out))
         if isinstance(n, ast.JoinedStr):
             return "<fstring>"
-        if self.opaque_unknown and isinstance(n, (ast.ListComp, ast.DictComp, ast.GeneratorExp, ast.SetComp, ast.Starred)):
+        if self.opaque_unknown and isinstance(n, ast.ListComp):
+            gens = n.generators
+            try:
+                if len(gens) == 2 and isinstance(n.elt, ast.Name) and isinstance(gens[0].target, ast.Name) and n.elt.id == gens[0].target.id \
+                        and isinstance(gens[1].iter, ast.Call) and isinstance(gens[1].iter.func, ast.Name) and gens[1].iter.func.id == "range":
+                    src = self.eval(st, gens[0].iter, env)
+                    cnt = self.eval(st, gens[1].iter.args[0], env)
+                    if isinstance(src, Opaque):
+                        return Opaque("[x for x in %s for _ in range(n)]" % src.why, idx=("repeat", src.idx, id(cnt)))
+                if len(gens) == 1 and isinstance(n.elt, ast.Subscript) and isinstance(gens[0].target, ast.Name) \
+                        and isinstance(n.elt.slice, ast.Name) and n.elt.slice.id == gens[0].target.id:
+                    src = self.eval(st, n.elt.value, env)
+                    ids = self.eval(st, gens[0].iter, env)
+                    if isinstance(src, Opaque) and isinstance(ids, Opaque):
+                        return Opaque("[%s[i] for i in ids]" % src.why, idx=("take", src.idx, ids.id))
+            except CheckerError:
+                pass
+            return self.opaque(n, "comprehension")
+        if self.opaque_unknown and isinstance(n, (ast.DictComp, ast.GeneratorExp, ast.SetComp, ast.Starred)):
             return self.opaque(n, "comprehension")
         raise CheckerError("unsupported python expression %s (line %s)" % (type(n).__name__, getattr(n, "lineno", "?")))
 
@@ -1216,6 +1242,8 @@ class PyExec:
             return o.fn(num(idx))
         if isinstance(o, tuple) and len(o) == 2 and isinstance(o[0], str) and o[0] == "where-first":
             return o[1]
+        if isinstance(o, Opaque) and isinstance(idx, Opaque):
+            return Opaque(o.why + "[index array]", idx=("take", o.idx, idx.id))     # fancy indexing: a reordered copy
         if isinstance(o, Opaque):
             return Opaque("view of " + o.why, buf=o.buf)       # numpy basic indexing returns a view
         if isinstance(idx, Opaque) or (isinstance(idx, tuple) and any(isinstance(i, Opaque) for i in idx)):
@@ -1404,10 +1432,18 @@ class PyExec:
                                     label=("array stored in the list (%s) shares its buffer with an array written in place at line(s) %s" % (x.why, hits)) if hits
                                     else "arrays stored in the list are not overwritten in place")
                 return Opaque("copy of a list of arrays")
+            sn_ = f.name.split(".")[-1]
+            if sn_ == "repeat" and len(args) >= 2 and isinstance(args[0], Opaque):
+                cnt = args[1]
+                return Opaque("repeat(" + args[0].why + ")", idx=("repeat", args[0].idx, id(cnt)))
+            if sn_ == "arange" and args and isinstance(args[0], Opaque):
+                return Opaque("arange", idx=("arange", id(args[0])))
+            if sn_ == "array" and args and isinstance(args[0], Opaque):
+                return Opaque("copy of " + args[0].why, idx=args[0].idx)      # np.array copies: new buffer, same index function
             if f.name.split(".")[-1] in ("asarray", "ascontiguousarray", "asanyarray", "atleast_1d", "atleast_2d", "ravel", "reshape") \
                     and args and isinstance(args[0], Opaque):
                 # these return the same memory when no conversion is needed
-                return Opaque(f.name.split(".")[-1] + "(" + args[0].why + ")", buf=args[0].buf)
+                return Opaque(f.name.split(".")[-1] + "(" + args[0].why + ")", buf=args[0].buf, idx=args[0].idx)
             if any(isinstance(a_, Opaque) for a_ in list(args) + list(kwargs.values())):
                 return Opaque("library call on an abstracted value")
             try:
